@@ -410,3 +410,75 @@ def rule_random_graph(F, R):
             adj = a[('in', '(ov1,ov2)', 'edges')] or a[('in', '(ov2,ov1)', 'edges')]
             return diffv and (diffc or not adj)
         truth_table(R, G + 'augment_colors', 'product-graph edge', sites, spec, t['span']['loc'])
+
+# ------------------------------------------------------------------------------------------------ emitted templates (token level)
+def tokenize_text(pattern, text):
+    """tokenise a piece of emitted formula text with the repository's tokenizer pattern and the reference token tables;
+    placeholders `{}` are read as the identifier ARG; quoted comments vanish, as in the real tokenizer"""
+    import re as _re
+    from engine_t import REF_SYMBOLS, REF_KEYWORDS
+    text = text.replace('{}', 'ARG')
+    out = []
+    for m in _re.finditer(pattern, text):
+        if m.group('symbol') is not None: out.append(REF_SYMBOLS.get(m.group('symbol'), '?' + m.group('symbol')))
+        elif m.group('countable') is not None: out.append('NUM:' + m.group('countable'))
+        elif m.group('reference') is not None: out.append('REF')
+        elif m.group('identifier') is not None:
+            w = m.group('identifier')
+            out.append(REF_KEYWORDS.get(w, 'VAR:' + w))
+        elif m.group('comment') is not None: pass
+    return out
+
+def emitted_templates(c, fn_prefix):
+    import engine_u
+    out = []
+    for name, t in c.thir.items():
+        if not name.startswith(fn_prefix): continue
+        for x in walk(t['body']):
+            if x['k'] == 'Literal' and x.get('lit') == 'ByteStr':
+                try: out.append((engine_u.decode_template(x['value']), x['loc']))
+                except Exception as ex: out.append(('<undecodable: %s>' % ex, x['loc']))
+            if x['k'] == 'Literal' and x.get('lit') == 'Str' and x['loc'].split(':')[0].endswith('main.rs'):
+                out.append((x['value'], x['loc']))
+    return out
+
+def rule_max_clique_templates(F, R):
+    """the pieces of text the generator emits, tokenised with the language's own token table, form the reference skeleton:
+    constraints `-(A & B) &` (or `true &`), then `true` (--all) or `forall L # ( -(v_A & v_B) & ... | true ) => [L] >= [L']`"""
+    from engine_t import tokenizer_pattern
+    c = F.crate('max_clique_gen')
+    pat, _ = tokenizer_pattern(F.lib())
+    if c is None or pat is None:
+        R.violation('max_clique_gen::main / L / templates anchor', 'UNDECIDABLE', 'generator or tokenizer pattern not found'); return
+    toks = []
+    for text, loc in emitted_templates(c, 'max_clique_gen::main'):
+        if text.startswith('<undecodable'):
+            R.violation('max_clique_gen::main / L / template', 'UNDECIDABLE', 'format template with directives other than {}: %s' % text, loc); return
+        tk = tokenize_text(pat, text)
+        if tk and not (len(tk) <= 3 and all(x.startswith('NUM:') for x in tk)):      # skip the version string "0.1.0"
+            toks.append((tuple(tk), text, loc))
+    got = {}
+    for tk, text, loc in toks: got.setdefault(tk, []).append((text, loc))
+    V = 'VAR:ARG'; VV = 'VAR:v_ARG'
+    want = {
+        ('True', 'And'): 'no complement edges: `true &`',
+        ('Not', 'OpenParen', V, 'And', V, 'CloseParen', 'And'): 'one constraint `-(A & B) &` per complement edge',
+        ('True',): '`true` closing the conjunction (--all) / empty constraint block of the maximality part',
+        ('Forall', V, 'Hash', 'OpenParen'): '`forall <v_ copies> # (`',
+        ('Not', 'OpenParen', VV, 'And', VV, 'CloseParen'): '`-(v_A & v_B)` per complement edge in the maximality part',
+        ('And',): 'constraints of the maximality part joined by `&`',
+        ('Comma',): 'list separator',
+        (V,): 'the joined constraint block',
+        ('CloseParen', 'Implies', 'OpenSquare', V, 'CloseSquare', 'Geq', 'OpenSquare', V, 'CloseSquare'): '`) => [V] >= [v_V]`',
+        (VV,): 'v_-prefixed copy of a vertex name',
+    }
+    for tk, why in want.items():
+        ok = tk in got
+        R.count('L:template-skeleton-pieces'); R.obligation(ok, 'L tmpl %s' % (tk,))
+        if not ok:
+            R.violation('max_clique_gen::main / L / template %s' % ' '.join(tk), 'L', 'no emitted piece of text tokenises to %s (%s); pieces found: %s' % (' '.join(tk), why, sorted(' '.join(k) for k in got)))
+    extra = [k for k in got if k not in want]
+    R.obligation(not extra, 'L tmpl extra')
+    for k in extra:
+        R.violation('max_clique_gen::main / L / unexpected template %s' % ' '.join(k), 'L', 'emitted text %r tokenises to %s, which is not part of the reference skeleton of the clique formula' % (got[k][0][0], ' '.join(k)), got[k][0][1])
+    R.sample({'rule': 'L templates', 'pieces': {' '.join(k): v[0][0] for k, v in got.items()}})
